@@ -61,7 +61,39 @@ WIRE = Stage(
     nontrivial=lambda e: True,
 )
 
+FUZZ = Stage(
+    family="fuzz",
+    mc={"quick": [("MC_Decode.tla", "MC_Decode.cfg", "pass"), ("MC_Decode.tla", "MC_Decode_loop_neg.cfg", "fail"),
+                  ("MC_Decode.tla", "MC_Decode_alloc_neg.cfg", "fail")],
+        "thorough": [("MC_Decode.tla", "MC_Decode_t.cfg", "pass"), ("MC_Decode.tla", "MC_Decode_loop_neg.cfg", "fail"),
+                     ("MC_Decode.tla", "MC_Decode_alloc_neg.cfg", "fail")]},
+    parts={"quick": [("", 8)], "thorough": [("", 8)]},
+    trace=("Trace_Wire.tla", "Trace_Wire.cfg"),
+    nontrivial=lambda e: True,
+)
+
 CHECKS = {
+    "C03": dict(
+        stages=[FUZZ],
+        technique="TLA+ decoder model with allocation meter and loop-progress property (MC_Decode.tla) + TLC judgement of "
+                  "observed outcomes of every real decoder/parser on specification-shaped corruptions (Trace_Wire.tla, "
+                  "MandatoryComplete from Wire/Layouts)",
+        level_text="TLC explores a mandatory-part + triplet-loop decoder over all octet strings of length <=6 (thorough 8) over "
+                   "{0,1,2,255}: Bounded allocation, loop Progress, termination, ShortIsError; a loop that consumes nothing and "
+                   "allocate-before-check are negative configurations.  Every real PDU decoder, dispatcher and auxiliary parser is "
+                   "then run on every truncation point of canonical images, every length/count octet substituted by "
+                   "{0,1,0x7f,0x80,0xff}, trailing garbage 1..16, well- and ill-formed optional tails and unstructured octets "
+                   "(thorough: up to 64 KiB), each call under recover, a 2 s watchdog and a TotalAlloc meter; TLC decides: no "
+                   "panic, no hang, alloc <= 64*len+1 MiB, and success only if the specification says the mandatory part is complete",
+        level_note="panics, hangs and allocation are observed by the harness (recover, watchdog, runtime.MemStats), not by TLC; the "
+                   "allocation bound is a chosen constant two orders of magnitude above what a correct decoder needs; the frame "
+                   "extractors are not among the parsers the property names; no coverage-guided fuzzing (native go fuzzing was not "
+                   "wired in)",
+        rule="one event per call (function, input octets -> outcome, bytes allocated); inputs derived from canonical images of all "
+             "58 layouts plus unstructured and text-shaped strings for 38 auxiliary parsers; distinct = distinct events",
+        assumptions=["runtime.MemStats.TotalAlloc delta as allocation meter", "2 s watchdog = hang",
+                     "after two hangs at one site further calls at that site are skipped (logged, not judged)"],
+    ),
     "C01": dict(
         stages=[WIRE],
         technique="TLA+ layout interpreter (Wire.tla over Layouts.tla): TLC exhaustive round trip of the reference codec on "
